@@ -43,10 +43,14 @@ def main():
             print("DEMONSTRATION NOT CONFIRMED"); print(out1[-600:]); print(out0[-600:]); return 1
         # the race detector may be needed for the demo (schedules); also record it
         os.remove(os.path.join(patched, "seed_demo_test.go"))
+        # run the checks from a snapshot of the COMMITTED /verif (edits in progress do not disturb the run)
+        snap = os.path.join(root, "verif")
+        os.makedirs(snap)
+        sh(f"git -C /verif archive HEAD | tar -x -C {snap}")
         env = dict(ENV, VERIF_REPO=patched, VERIF_EVIDENCE_DIR=os.path.join(root, "evidence"), VERIF_BIN_DIR=os.path.join(root, "bin"))
         results = {}
         for c in checks:
-            rc, out = sh(f"/verif/check.sh {c} quick", env=env)
+            rc, out = sh(f"{snap}/check.sh {c} quick", env=env)
             results[c] = {"exit": rc, "violation": f"VIOLATION property={c}" in out, "what": re.findall(r"what: \[([^\]]+)\] ([^\n]{0,160})", out)[:3],
                           "inconclusive": [l[:200] for l in out.splitlines() if l.startswith("INCONCLUSIVE")][:2]}
             print(c, "VIOLATION" if results[c]["violation"] else ("inconclusive" if rc == 2 else "silent"), results[c]["what"][:1], flush=True)
